@@ -226,6 +226,12 @@ def c10(tier):
                                      + r.choice([" |", " -+", " a"]) for _ in range(r.randint(1, 3))))   # (a quoted string is never the right-most thing: F-C12-quoted-canvas)
         else:
             special.append(gen.box(r.randint(1, 6), r.randint(1, 3), r.choice(["sharp", "round", "uni"])))
+    # rows of many isolated components (rulers, tick marks, spaced labels) next to multi-row shapes
+    for i in range(16):
+        cnt = r.randint(8, 20)
+        special.append(r.choice(["  ".join(r.choice(gen.LABELS) for _ in range(cnt)), " ".join("|" for _ in range(cnt)),
+                                 "  ".join(r.choice(["o", "*", "+", "x1"]) for _ in range(cnt))]))
+        special.append(gen.box(r.randint(1, 5), r.randint(1, 3), r.choice(["sharp", "round", "uni"])))
     r.shuffle(special)
     # shapes whose first row starts at their left edge, next to rows ending in a wide character
     for i in range(12):
@@ -453,7 +459,27 @@ def c09(tier):
                 body, d = "\n".join(" " * (ln - 1 - i) + ch for i in range(ln)), "s"
             else:
                 body, d = "\n".join(" " * i + ch for i in range(ln)), "b"
-            runs.append((gen.shift_text(body, k, nn), {"ch": ord(ch), "len": ln, "dir": d, "k": k, "n": nn}))
+            runs.append((gen.shift_text(body, k, nn), {"chars": [ord(ch)] * ln, "len": ln, "dir": d, "k": k, "n": nn}))
+    # mixed runs: solid and dashed characters of one direction in one run (dashed if any part is)
+    for (solid, dashes, d) in (("-", "~", "h"), ("─", "┄", "h"), ("|", ":!", "v"), ("│", "┊┆╎", "v")):
+        for ln in [x for x in lengths if x >= 2][:14]:
+            for variant in range(3):
+                chars = [solid] * ln
+                if variant == 0:          # dashed tail after a solid head
+                    cut = r.randint(1, ln - 1)
+                    chars[cut:] = [r.choice(dashes) for _ in range(ln - cut)]
+                elif variant == 1:        # dashed head
+                    cut = r.randint(1, ln - 1)
+                    chars[:cut] = [r.choice(dashes) for _ in range(cut)]
+                else:                     # one dashed stretch inside
+                    a_ = r.randrange(ln)
+                    chars[a_] = r.choice(dashes)
+                if d == "v" and solid == "|":
+                    # a ':' or '!' needs a vertical neighbour to be a stroke: guaranteed inside a run of length >= 2
+                    pass
+                k, nn = r.randint(0, 6), r.randint(0, 4)
+                body = "".join(chars) if d == "h" else "\n".join(chars)
+                runs.append((gen.shift_text(body, k, nn), {"chars": [ord(c) for c in chars], "len": ln, "dir": d, "k": k, "n": nn}))
     obs = observe.observe([{"input": t} for t, _ in runs], tag="C09A")
     for (t, info), o in zip(runs, obs):
         run.add_event({"props": ["C09", "C09run"], "rows": o["rows"], "doc": o["doc"], "run": info},
@@ -718,18 +744,28 @@ def gen_box(r, w, h, k, n, kind):
     ascii_ = kind in ("sharp", "round", "round2")
     tl, tr, bl, br = {"sharp": "++++", "round": "..''", "round2": ",.`'", "uni": "┌┐└┘", "uniround": "╭╮╰╯"}[kind]
     hz_opts = ["-", "~"] if ascii_ else ["─", "┄"]
-    style = r.choice(["solid", "solid", "dash_h", "dash_v", "mixed"])
+    style = r.choice(["solid", "solid", "dash_h", "dash_v", "mixed", "only_top", "only_bottom", "only_left", "only_right"])
+    hz_calls = [0]
 
     def hz_row():
+        hz_calls[0] += 1
+        if style == "only_top":
+            return (hz_opts[1] if hz_calls[0] == 1 else hz_opts[0]) * w
+        if style == "only_bottom":
+            return (hz_opts[1] if hz_calls[0] == 2 else hz_opts[0]) * w
         if style in ("dash_h",):
             return r.choice(hz_opts[1]) * w
         if style == "mixed":
             return "".join(r.choice(hz_opts) for _ in range(w))
         return hz_opts[0] * w
 
+    side_calls = [0]
+
     def side_col():
+        side_calls[0] += 1
         col = ["|" if ascii_ else "│"] * h
-        if style in ("dash_v", "mixed") and h >= 2:
+        dash_this = style in ("dash_v", "mixed") or (style == "only_left" and side_calls[0] == 1) or (style == "only_right" and side_calls[0] == 2)
+        if dash_this and h >= 2:
             if ascii_:
                 # dashed stretch that continues a vertical stroke
                 a = r.randrange(0, h)
@@ -1352,7 +1388,7 @@ def c07(tier):
     run = Run("C07", tier)
     ninputs = 150 if tier == "quick" else 1500
     nprocs = 8 if tier == "quick" else 32
-    thread_counts = [1, 2, 4, 8, 16] if tier == "quick" else list(range(1, 17))
+    thread_counts = [1, 2, 4, 8, 16, 16, 16, 16] if tier == "quick" else list(range(1, 17)) + [16] * 16
     run.rule = ("model: Service.tla with %s threads x 2 calls and the real table dependency graph, all interleavings: "
                 "once-only initialisation, dependency order, no re-entrancy, determinism of results, no deadlock, every "
                 "call returns (TLC, liveness); code: %d fresh processes (independent hash seeds) each converting the "
@@ -1382,6 +1418,33 @@ def c07(tier):
             rq["settings"] = s
         reqs.append(rq)
     keyof = {rq["id"]: "%d|%s|%d" % (rq["id"], rq["entry"], rq["id"] % 3) for rq in reqs}
+    # the thread corpus starts with inputs that force every lazy table (circles, quarter / half / three-quarter
+    # arcs, Unicode glyphs), so that the first calls of racing threads initialise them concurrently
+    cat = _json.load(open(os.path.join(common.ROOT, "verifpy", "catalogue.json"), encoding="utf-8"))
+    hungry = []
+    for idx in (5, 8, 11, 14, 17, 20):
+        D = cat[idx]
+        h, w = len(D), max(len(x) for x in D)
+        hungry.append("\n".join(D))
+        for (qx, qy) in ((1, 1), (0, 1), (1, 0), (0, 0)):          # blank one quadrant / one half
+            hungry.append("\n".join("".join(" " if ((x >= w // 2) == bool(qx) and (y >= h // 2) == bool(qy)) else ch
+                                             for x, ch in enumerate(row.ljust(w))).rstrip() for y, row in enumerate(D)))
+        hungry.append("\n".join(D[:h // 2]))
+        hungry.append("\n".join(row[:w // 2] for row in D))
+    tabs = _json.load(open(os.path.join(common.ROOT, "verifpy", "catalogue_tables.json"), encoding="utf-8"))
+    for key in ("three_quarters", "half", "quarter"):
+        ents = tabs[key]
+        for e in [ents[i] for i in (3, 17, 30, 44, 58, 75) if i < len(ents)]:
+            cells = {(c[0], c[1]): chr(c[2]) for c in e["span"]}
+            hh = max(y for (_, y) in cells) + 1
+            ww = max(x for (x, _) in cells) + 1
+            hungry.append("\n".join("".join(cells.get((x, y), " ") for x in range(ww)).rstrip() for y in range(hh)))
+    hungry += ["┌─┐\n│○│\n└─┘  ▲ ●--", "*--o--O  .-.\n        (   )\n         `-'"]
+    treqs = []
+    for i, t in enumerate(hungry):
+        treqs.append({"id": len(reqs) + i, "input": t, "entry": "to_svg"})
+        keyof[len(reqs) + i] = "%d|to_svg|0" % (len(reqs) + i)
+    allreqs = {rq["id"]: rq for rq in reqs + treqs}
     events = []
     meta = []
 
@@ -1392,7 +1455,7 @@ def c07(tier):
 
     def one_proc(p):
         rr = common.rng("C07/proc/%d" % p)
-        order = list(reqs)
+        order = list(reqs) + list(treqs)
         rr.shuffle(order)
         second = list(reqs)
         rr.shuffle(second)
@@ -1402,12 +1465,13 @@ def c07(tier):
         for p, resps in ex.map(one_proc, range(1, nprocs + 1)):
             for k, resp in enumerate(resps):
                 events.append({"ev": "ret", "proc": p, "thread": 0, "key": keyof[resp["id"]], "sha": sha(resp)})
-                meta.append({"input": reqs[resp["id"]]["input"], "entry": reqs[resp["id"]]["entry"],
-                             "settings": reqs[resp["id"]].get("settings"), "proc": p, "position": k})
+                meta.append({"input": allreqs[resp["id"]]["input"], "entry": allreqs[resp["id"]]["entry"],
+                             "settings": allreqs[resp["id"]].get("settings"), "proc": p, "position": k})
     lazy_total = 0
+    tcorpus = treqs + reqs[:max(20, len(reqs) // 4)]
     for j, nth in enumerate(thread_counts):
         p = 100 + j
-        calls, lazy = common.run_threads(nth, reqs[:max(20, len(reqs) // 4)], tag="C07t%d" % nth)
+        calls, lazy = common.run_threads(nth, tcorpus, tag="C07t%d_%d" % (nth, j), same_start=(j % 2 == 1))
         # lazy events are ordered by their process-wide sequence number; calls per thread by seq
         for lz in sorted(lazy, key=lambda x: x["seq"]):
             events.append({"ev": "lazy", "proc": p, "thread": lz["thread"], "table": lz["table"], "phase": lz["phase"]})
@@ -1416,8 +1480,24 @@ def c07(tier):
         for c in calls:
             resp = c["resp"]
             events.append({"ev": "ret", "proc": p, "thread": c["thread"], "key": keyof[resp["id"]], "sha": sha(resp)})
-            meta.append({"input": reqs[resp["id"]]["input"], "entry": reqs[resp["id"]]["entry"],
-                         "settings": reqs[resp["id"]].get("settings"), "proc": p, "thread": c["thread"], "position": c["seq"]})
+            meta.append({"input": allreqs[resp["id"]]["input"], "entry": allreqs[resp["id"]]["entry"],
+                         "settings": allreqs[resp["id"]].get("settings"), "proc": p, "thread": c["thread"], "position": c["seq"]})
+    # many more fresh processes racing on first use with only the table-hungry inputs (cheap)
+    for j in range(12 if tier == "quick" else 80):
+        p = 1000 + j
+        rr = common.rng("C07/race/%d" % j)
+        order = list(treqs)
+        rr.shuffle(order)
+        calls, lazy = common.run_threads(16, order, tag="C07r%d" % j, same_start=True)
+        for lz in sorted(lazy, key=lambda x: x["seq"]):
+            events.append({"ev": "lazy", "proc": p, "thread": lz["thread"], "table": lz["table"], "phase": lz["phase"]})
+            meta.append({"proc": p, "lazy": lz})
+            lazy_total += 1
+        for c in calls:
+            resp = c["resp"]
+            events.append({"ev": "ret", "proc": p, "thread": c["thread"], "key": keyof[resp["id"]], "sha": sha(resp)})
+            meta.append({"input": allreqs[resp["id"]]["input"], "entry": "to_svg", "settings": None, "proc": p,
+                         "thread": c["thread"], "position": c["seq"]})
     run.notes["lazy_events"] = lazy_total
     run.notes["processes"] = nprocs + len(thread_counts)
     drift_before = run.drift
